@@ -391,9 +391,13 @@ def climb_type_tree(var_stack, curr_scope: Scope, obj_tree: dict):
     if var_obj is None:
         return None
     # Search for type, then next variable in stack and so on
+    parent_component = False
     for _ in range(30):
         # Find variable type object
-        type_obj = var_obj.get_type_obj(obj_tree)
+        if parent_component:
+            type_obj = var_obj
+        else:
+            type_obj = var_obj.get_type_obj(obj_tree)
         # Return if not found
         if type_obj is None:
             return None
@@ -404,6 +408,17 @@ def climb_type_tree(var_stack, curr_scope: Scope, obj_tree: dict):
         # Find next variable by name in type
         var_name = var_stack[iVar].strip().lower()
         var_obj = find_in_scope(type_obj, var_name, obj_tree, local_only=True)
+        parent_component = False
+        if var_obj is None:
+            # An extended type has its parent type as a component (obj%parent_t%x)
+            var_obj = getattr(type_obj, "inherit_var", None)
+            for _ in range(30):
+                if var_obj is None or var_obj.name.lower() == var_name:
+                    break
+                var_obj = getattr(var_obj, "inherit_var", None)
+            else:
+                var_obj = None
+            parent_component = var_obj is not None
         # Return if not found
         if var_obj is None:
             return None
